@@ -13,7 +13,7 @@ EXPLANATION = ('The real ListGrader (check, perform_check, find_optimal_order, M
                'partial_credit=False => all entries zero unless all are fully correct.')
 ASSUMPTIONS = ['item credits are arbitrary reals in [0,1] ("full") or in (0,1) ("interior"); item strings are concrete distinct tokens',
                'the subgrader is an author-defined ItemGrader subclass returning the table credit (documented extension point)']
-BOUNDS = {'quick': 'n<=2 full credits, n=3 interior credits; 2 alternative answer lists n=2 interior; grouped/nested layouts of 4 inputs (2 groups x 2) interior',
+BOUNDS = {'quick': 'assignment-solver inductive steps 1 and 6 (n<=3, arbitrary pre-state); 4 inputs with one symbolic palette row; n<=2 full credits, n=3 interior credits; 2 alternative answer lists n=2 interior; grouped/nested layouts of 4 inputs (2 groups x 2) interior',
           'thorough': 'n<=3 full, n=4 interior (path budget), 2 alternative lists n=2 full / n=3 interior, nested 2x2 full, grouping 3 groups'}
 OUTSIDE = ['IEEE rounding of credit sums', 'n beyond the bounds', 'more than 2 alternative answer lists']
 DEADLINE = {'quick': 150, 'thorough': 2400}
@@ -164,6 +164,36 @@ def h_groups_slg(E, interior):
     return [list(t) for t in tags]
 
 
+def h_palette4(E, ordered_rows):
+    """4 inputs, credits from the palette {0, 1/2, 1} (symbolic integers /2): the smallest size at which a slip in the assignment solver's
+    step 6 shows; only the FIRST `ordered_rows` rows are symbolic to keep the path count bounded, the rest are a fixed generic pattern"""
+    from mitxgraders import ListGrader
+    n = 4
+    exps = ['e%d' % i for i in range(n)]
+    stus = ['s%d' % j for j in range(n)]
+    fixed = [[1, 0, 0.5, 0], [1, 0.5, 0, 0], [0.5, 0, 0.5, 0.5], [1, 0, 0, 0]]
+    T = {}
+    for i in range(n):
+        for j in range(n):
+            if j < ordered_rows:
+                k = E.int('k_%d_%d' % (i, j), 0, 2)
+                T[(exps[i], stus[j])] = k / 2
+            else:
+                T[(exps[i], stus[j])] = fixed[j][i]
+    TG = make_table_grader(T)
+    g = ListGrader(answers=list(exps), subgraders=TG(), ordered=False)
+    r = g(None, list(stus))
+    il = r['input_list']
+    tags = [_tag(ent) for ent in il]
+    E.check('reported-at-input-position', all(tags[j][1] == stus[j] for j in range(n)))
+    E.check('one-to-one', sorted(t[0] for t in tags) == sorted(exps))
+    if any(t not in T for t in tags):
+        return 'bad'
+    tot = sum(T[t] for t in tags)
+    E.check('optimal-assignment', sand(*[near_le(sum(T[(exps[p[j]], stus[j])] for j in range(n)), tot) for p in itertools.permutations(range(n))]))
+    return [list(t) for t in tags]
+
+
 def harnesses(tier):
     hs = []
 
@@ -180,7 +210,13 @@ def harnesses(tier):
         add(h_nested, 'nested', dict(outer=False, inner=True, interior=True, layout=layout), '2 groups x 2 inputs, credits in (0,1)')
     add(h_nested, 'nested', dict(outer=True, inner=False, interior=True, layout='1221'), '2 groups x 2 inputs, credits in (0,1)')
     add(h_groups_slg, 'groups_mixed', dict(interior=True), 'grouping [1,2,1], credits in (0,1)')
+    from vchecks.c06 import h_step6, h_step1
+    for nn in (2, 3):
+        hs.append(Harness(pname('solver_step6', n=nn), h_step6, (nn,), FUNCS, 'assignment solver step 6 from an arbitrary pre-state (dual transformation), n=%d' % nn, STUBS))
+        hs.append(Harness(pname('solver_step1', n=nn), h_step1, (nn,), FUNCS, 'assignment solver step 1 from an arbitrary matrix, n=%d' % nn, STUBS))
+    add(h_palette4, 'palette4', dict(symbolic_inputs=1), '4 inputs; one input\'s credits symbolic over {0,1/2,1}, the rest fixed')
     if tier == 'thorough':
+        add(h_palette4, 'palette4', dict(symbolic_inputs=2), '4 inputs; two inputs\' credits symbolic over {0,1/2,1}', max_paths=200000)
         for partial in (True, False):
             add(h_list, 'list', dict(ordered=False, partial=partial, n=3, interior=False), 'n=3, credits in [0,1]', max_paths=150000)
         add(h_list, 'list', dict(ordered=False, partial=True, n=4, interior=True), 'n=4, credits in (0,1)', max_paths=150000)
